@@ -61,6 +61,23 @@ impl<E: Edge, N: InnerNode<E>> DiagramRules<E, N, ZBDDTerminal> for ZBDDRules {
     fn cofactors(_tag: E::Tag, node: &N) -> Self::Cofactors<'_> {
         node.children()
     }
+
+    /// No set of a family whose diagram skips a level contains the variable of
+    /// that level: the `hi` cofactor (child 0) is ∅, the `lo` cofactor is the
+    /// family itself.
+    #[inline]
+    fn skipped_level_cofactor<M: Manager<Edge = E, InnerNode = N, Terminal = ZBDDTerminal>>(
+        manager: &M,
+        edge: &E,
+        n: usize,
+    ) -> E {
+        if n == 0 {
+            // static terminals: cannot fail
+            manager.get_terminal(ZBDDTerminal::Empty).unwrap()
+        } else {
+            manager.clone_edge(edge)
+        }
+    }
 }
 
 #[inline(always)]
